@@ -98,7 +98,7 @@ def gen_ops(r, n):
         k = r.weighted([(28, "nreq"), (9, "burst"), (22, "req"), (12, "replay"), (10, "resp"), (5, "presp"),
                         (7, "stop"), (5, "crash"), (2, "replayall")])
         if k == "burst":
-            ops.append(["burst", r.choice([2, 3, 5, 9, 10, 11, 19, 21, 30, 41, 60])])
+            ops.append(["burst", r.choice([2, 3, 3, 5, 5, 9, 10, 11, 12, 19, 21, 30, 31, 45, 71])])
         elif k == "req":
             ops.append(["req", r.weighted([(5, "plain"), (4, "echo"), (1, "stale")])])
         elif k == "replay":
@@ -152,6 +152,9 @@ def corpus():
     # shipped chunk sizes: twelve protects, clean stop, three more (the journal DESIGN 7 C13 lists)
     out.append({"cfg": "crash", "ctx": _shipped_ctx(), "init": None,
                 "ops": [["burst", 12], ["stop"], ["burst", 3]], "crash": ALL, "name": "shipped-12-stop"})
+    out.append({"cfg": "crash", "ctx": _shipped_ctx(), "init": None, "powerloss": True,
+                "ops": [["burst", 12], ["req", "plain"], ["stop"], ["burst", 3]], "crash": ALL,
+                "name": "powerloss-exploratory (never gates)"})
     # exhaustion: the last numbers before 2^40-1, with a stop in between
     out.append({"cfg": "crash", "ctx": _shipped_ctx(start=2, limit=4),
                 "init": {"next": MAX_SEQNO - 4, "received": {"index": 0, "bitfield": 0}},
@@ -249,7 +252,7 @@ class Run:
         self.p_reqs = []  # {"wire", "seq", "rid", "accepted": [(inc, opidx)], "echo": hex|None}
         self.p_echoes = []
         self.accepted_inc = []  # [(j, request_id)] accepted in the current incarnation
-        self.n_last = None  # (wire, n_rid, p_rid|None) of N's last request in this incarnation
+        self.n_last = None  # (wire, n_rid) of N's last request in this incarnation
         self.window_initialized_at_stop = None
         self.mid = 0
         self.violations = []
@@ -488,12 +491,7 @@ class Run:
             self.probe("chunk_boundary_crossed")
         if data is None:
             return
-        prid = None
-        try:
-            _, prid = self.P.unprotect(self.env.from_wire(data))
-        except self.osc.ProtectionInvalid:
-            self.probe("peer_rejected_request")
-        self.n_last = (data, rid, prid)
+        self.n_last = (data, rid)  # P looks at it only when it answers (op presp)
 
     def deliver_to_n(self, j, replayed):
         """P's datagram j arrives at N."""
@@ -606,10 +604,18 @@ class Run:
     def op_presp(self, own):
         from aiocoap import Message, CONTENT
 
-        if self.n_last is None or self.n_last[2] is None:
+        if self.n_last is None:
             self.log.append(("presp", "skip"))
             return
-        data, nrid, prid = self.n_last
+        data, nrid = self.n_last
+        self.n_last = None
+        try:
+            _, prid = self.P.unprotect(self.env.from_wire(data))
+        except self.osc.ProtectionInvalid:
+            # P's own replay window refuses a number it has seen (N re-issued it, or an older one)
+            self.probe("peer_rejected_request")
+            self.log.append(("presp", "peer-rejected"))
+            return
         if own:
             prid.get_reusable_kid_and_piv()
         outer, _ = self.P.protect(Message(code=CONTENT, payload=b"presp"), prid)
@@ -683,6 +689,7 @@ class Run:
                 for obj in self.objs:
                     self.discard(obj)
         self.stats["io_error"] = len(self.fs.io_fired)
+        self.stats["crash_point"] = 1 if self.fs.crashes else 0
         if self.fs.io_fired:
             self.probe("io_error_fired", len(self.fs.io_fired))
         return self
@@ -817,7 +824,8 @@ def evidence_extra(total):
     f = total["faults"]
     p = total["probes"]
     return {
-        "crash_points_enumerated": f.get("crash", 0),
+        "crash_points_enumerated": f.get("crash_point", 0),
+        "crashes_total_including_op_level": f.get("crash", 0),
         "torn_writes_enumerated": f.get("torn_write", 0),
         "io_errors_fired": f.get("io_error", 0),
         "clean_stops": f.get("clean_stop", 0),
